@@ -99,7 +99,8 @@ def trace_all(repo):
             extra = used - set(args)
             if extra:
                 raise Unsupported(f"UNSUPPORTED {name}: undeclared symbols {sorted(extra)}")
-            out[name] = (args, desc, mat)
+            pins = sorted(((q.name, i) for q, i in inst.pin_dic.items()), key=lambda t: t[1])
+            out[name] = (args, desc, mat, pins)
     finally:
         M.np = real_np
     return out
@@ -142,14 +143,18 @@ def generate(repo: str) -> str:
            "import Mathlib.Analysis.SpecialFunctions.Trigonometric.Basic",
            "import Mathlib.LinearAlgebra.Matrix.Notation",
            "", "namespace Generated.Blocks", ""]
-    for name, (args, desc, mat) in blocks.items():
+    for name, (args, desc, mat, pins) in blocks.items():
         n = mat.shape[0]
         binder = f" ({' '.join(args)} : ℝ)" if args else ""
         rows = ";\n    ".join(", ".join(_entry(e) for e in r) for r in mat.rows)
         out += [f"/-- traced: {desc} -/",
                 f"noncomputable def {name}{binder} : Matrix (Fin {n}) (Fin {n}) ℂ :=",
                 f"  !![{rows}]", ""]
-    out += ["end Generated.Blocks", ""]
+    q = lambda t: '"' + t + '"'
+    out += ["/-- pin name -> matrix row of every traced block, as found in its `pin_dic` (sorted by row) -/",
+            "def pins : List (String × List (String × Nat)) := ["]
+    out.append(",\n".join("  (" + q(name) + ", [" + ", ".join(f"({q(pn)}, {i})" for pn, i in v[3]) + "])" for name, v in blocks.items()) + "]")
+    out += ["", "end Generated.Blocks", ""]
     return "\n".join(out)
 
 
